@@ -427,6 +427,11 @@ def check(run, terrs):
                                zip(script, lreqs)))
         frames_for_coq = []
         for (c, kind, sc), (rc, ans, cerr), lo, rq in zip(script, cres, lres, lreqs):
+            if getattr(c, "envpath", None):
+                # libjsonnet has no JSONNET_PATH: the script hands it every search directory as a jpath while the
+                # library request above leaves the environment entries out - not the same configuration; not judged
+                run.count("capi:skipped-envpath-configuration")
+                continue
             run.note_case("capi:" + json.dumps(sc), True)
             run.count("capi:" + kind)
             case = {"c_api_script": sc, "cwd": "generated", "library_request": rq}
@@ -436,7 +441,9 @@ def check(run, terrs):
                 continue
             _, eflag, hx = ans.split(" ")
             buf = binascii.unhexlify(hx)
-            lerr = "err" in lo
+            # same domain as the C entry point: multi output of a non-object / stream output of a non-array is an
+            # error there ("expected object as multi output"); the harness signals it as {"ok": {"notobj"|"notarr"}}
+            lerr = "err" in lo or (isinstance(lo.get("ok"), dict) and ("notobj" in lo["ok"] or "notarr" in lo["ok"]))
             if (eflag == "1") != lerr:
                 failures.append({"case": case, "summary": "C15 libjsonnet and the library API disagree on the error flag: "
                                  + sc[-1][:80], "expected": lo, "got": {"error": eflag, "text": buf[:300].decode("utf-8", "replace")}})
